@@ -21,7 +21,7 @@ LEVEL = ("Generated-input exploration over tall / wide / duplicated-column / exa
 BUDGET = {"quick": 500, "thorough": 15000}
 RULE = ("Cases: X 6..19 x 2..11 (thorough to 40 x 24) with column scales e^{N(0,s)}, s in {0,1,2}, kinds full / duplicated and summed "
         "columns / exactly rank-deficient products with integer factors, global scale 10^[-3,6]; 1..3 targets = X B/max|X| + noise; "
-        "alphas: 1..5 sorted values, absolute 10^[-12,3] or relative {0,1e-9} u 10^[-9,-0.05]; methods tikhonov / cutoff; scorers "
+        "alphas: 1..5 values (ascending, descending or shuffled; repeated values possible), absolute 10^[-12,3] or relative {0,1e-9} u 10^[-9,-0.05]; methods tikhonov / cutoff; scorers "
         "None / neg MSE / neg RMSE / r2; folds from cv=None (shuffle on/off, seeds), an explicit (train,test) pair covering all samples or only part of them, KFold(3) or ShuffleSplit(train_size=.4, test_size=.4); n_jobs "
         "None in the worker processes, 2 for a fixed set of generated cases run in the main process (joblib does not parallelise inside daemonic workers); 1-D y when one target.  The oracle is evaluated with its rank threshold divided and multiplied by 30; if the two "
         "evaluations differ the data does not determine the answer and the case is skipped.  Non-trivial: >= 2 alphas with different "
@@ -64,6 +64,11 @@ def strategy_(draw, tier):
     else:
         tail = 10.0 ** draw(hnp.arrays(np.float64, (max(1, na - 1),), elements=st.floats(-9, -0.0625, width=32)))
         alphas = np.sort(np.r_[draw(st.sampled_from([0.0, 1e-9])), tail])
+    order = draw(st.sampled_from(["ascending", "ascending", "descending", "shuffled"]))     # the grid is the user's, in any order
+    if order == "descending":
+        alphas = alphas[::-1].copy()
+    elif order == "shuffled":
+        alphas = alphas[gen.permutation(draw, len(alphas))]
     cvk = draw(st.sampled_from(["none", "explicit", "kfold", "partial", "shufflesplit"]))
     case = {"X": X, "y": y, "kind": kind, "alphas": alphas, "alpha_type": atype,
             "method": draw(st.sampled_from(["tikhonov", "cutoff"])),
@@ -156,7 +161,7 @@ def check(case, ctx):
     X, y, alphas, atype, method = case["X"], case["y"], case["alphas"], case["alpha_type"], case["method"]
     n, m = X.shape
     name = case["scoring"] or "neg_mean_squared_error"
-    ctx.cls("kind=" + case["kind"], "alpha_type=" + atype, "method=" + method, "scoring=" + str(case["scoring"]), "cv=" + case["cv"],
+    ctx.cls("kind=" + case["kind"], "alpha_type=" + atype, "method=" + method, "scoring=" + str(case["scoring"]), "cv=" + case["cv"], "grid=" + ("single" if len(alphas) < 2 else "ascending" if np.all(np.diff(alphas) >= 0) else "unsorted"),
             "shape=%s" % ("tall" if n > m else "wide"), "n_jobs=%s" % case["n_jobs"])
     cv, kw, tr, te = folds(case)
     est = Ridge2FoldCV(alphas=alphas.copy(), alpha_type=atype, regularization_method=method, scoring=case["scoring"], cv=cv,
